@@ -40,7 +40,7 @@ describe(
         "components (trusted); every group scheduled once (stages built from, and only from, the peeled "
         "nodes); chains propagate data in sequence order; the three definitions of 'needs an MDA' agree."
     ),
-    decided=["8.1 orientation parity", "8.2 SCC delegation (trusted)", "8.3 every discipline once", "8.4 chains follow the sequence", "8.5 one definition of 'needs an MDA'", "8.6 initialisation order credits a discipline with its own defaults only"],
+    decided=["8.1 orientation parity", "8.2 SCC delegation (trusted)", "8.3 every discipline once", "8.4 chains follow the sequence", "8.5 one definition of 'needs an MDA'", "8.6 initialisation order credits a discipline with its own defaults only", "8.9 data forwarded by a chain after a cache hit (rule 5.14 of C05)"],
     not_decided=["equality with the monolithic evaluation of the whole system"],
     trusted=["networkx.strongly_connected_components and networkx.condensation"],
 )
